@@ -617,6 +617,194 @@ func (pc *pairCtx) isDisposal(c ssa.CallInstruction, k *resKind, a ssa.Value) bo
 			return true
 		}
 	}
+	// the finalizer is handed to a helper that runs the operation under a deferred abort (checked once, checkFinalizeHelpers)
+	if k.resultFunc && a != nil && c01FinalizeHelpers[ref] && len(c.Common().Args) > 0 && valueFromCall(c.Common().Args[0], a, 0) {
+		return true
+	}
+	return false
+}
+
+// c01FinalizeHelpers: helpers taking (finalize func(error) error, op func() error): they run op and then finalize(err); if op
+// panics a deferred call finalizes with an error (which discards the output).
+var c01FinalizeHelpers = map[string]bool{"pkg/cli.finalizeAfter": true}
+
+// checkFinalizeHelpers (C01.R2): in each helper a defer is registered before op is called; its closure calls the finalize
+// parameter with a non-nil error unless a captured flag is set; the flag is set only after op returned.
+func checkFinalizeHelpers(c *Ctx) {
+	p, r := c.P, c.R
+	for ref := range c01FinalizeHelpers {
+		fn := p.Func(ref)
+		if fn == nil {
+			r.Note("C01.R2: finalize helper %s not present in this tree", ref)
+			continue
+		}
+		if len(fn.Params) < 2 {
+			r.Bad("C01.R2", ref, "helper shape", p.Pos(fn.Pos()), "expected (finalize, op) parameters")
+			continue
+		}
+		fin, op := fn.Params[0], fn.Params[1]
+		var deferI *ssa.Defer
+		var opCall ssa.Instruction
+		var flagCell ssa.Value
+		eachInstr(fn, func(_ *ssa.BasicBlock, _ int, i ssa.Instruction) {
+			switch x := i.(type) {
+			case *ssa.Defer:
+				if mc, ok := x.Call.Value.(*ssa.MakeClosure); ok {
+					cl := mc.Fn.(*ssa.Function)
+					callsFin, guarded := false, false
+					eachInstr(cl, func(_ *ssa.BasicBlock, _ int, j ssa.Instruction) {
+						cc, ok := j.(*ssa.Call)
+						if !ok {
+							return
+						}
+						if fv, ok := cc.Call.Value.(*ssa.UnOp); ok {
+							if f2, ok := fv.X.(*ssa.FreeVar); ok {
+								if b := freeVarBinding(f2); b != nil && derivesFromParam(throughLoad(b), fin) || cellHoldsParam(b, fin) {
+									callsFin = true
+									if len(cc.Call.Args) == 1 && certainlyNonNilErr(cc.Call.Args[0], cc) {
+										if fl := abortFlagGuarding(cc); fl != nil {
+											guarded = true
+											flagCell = fl
+										}
+									}
+								}
+							}
+						}
+						if f2, ok := cc.Call.Value.(*ssa.FreeVar); ok {
+							if b := freeVarBinding(f2); b == ssa.Value(fin) {
+								callsFin = true
+								if len(cc.Call.Args) == 1 && certainlyNonNilErr(cc.Call.Args[0], cc) {
+									if fl := abortFlagGuarding(cc); fl != nil {
+										guarded = true
+										flagCell = fl
+									}
+								}
+							}
+						}
+					})
+					if callsFin && guarded {
+						deferI = x
+					}
+				}
+			case *ssa.Call:
+				if x.Call.Value == ssa.Value(op) {
+					opCall = i
+				} else if ld, ok := x.Call.Value.(*ssa.UnOp); ok && cellHoldsParam(ld.X, op) {
+					opCall = i
+				}
+			}
+		})
+		pos := p.Pos(fn.Pos())
+		switch {
+		case deferI == nil:
+			r.Bad("C01.R2", ref, "helper defer", pos, "no deferred closure that calls the finalize parameter with a non-nil error under a completion flag: a panic in the operation would skip the finalizer")
+		case opCall == nil:
+			r.Bad("C01.R2", ref, "helper defer", pos, "the op parameter is not called")
+		default:
+			ff := NewFactFlow(fn, func(i ssa.Instruction) []string {
+				if i == ssa.Instruction(deferI) {
+					return []string{"deferred"}
+				}
+				return nil
+			}, nil, nil, nil)
+			okOrder := ff.Holds(opCall, "deferred")
+			// the flag is stored true only after op returned
+			okFlag := true
+			eachInstr(fn, func(_ *ssa.BasicBlock, _ int, i ssa.Instruction) {
+				st, ok := i.(*ssa.Store)
+				if !ok || flagCell == nil || cellRoot(st.Addr) != cellRoot(flagCell) {
+					return
+				}
+				if cst, ok := st.Val.(*ssa.Const); ok && cst.Value != nil && cst.Value.String() == "true" {
+					after := false
+					for _, x := range instrsAfter(opCall) {
+						if x == i {
+							after = true
+						}
+					}
+					if !after {
+						okFlag = false
+					}
+				}
+			})
+			if okOrder && okFlag {
+				r.OK("C01.R2", ref, "helper defer", pos, "the abort is deferred before op is called; the completion flag is set only after op returned; the deferred closure finalizes with a non-nil error otherwise", true)
+			} else {
+				r.Bad("C01.R2", ref, "helper defer", pos, fmt.Sprintf("finalize helper discipline broken (defer before op: %v, flag set only after op: %v)", okOrder, okFlag))
+			}
+		}
+	}
+}
+
+func throughLoad(v ssa.Value) ssa.Value {
+	if ld, ok := v.(*ssa.UnOp); ok && ld.Op == token.MUL {
+		return ld.X
+	}
+	return v
+}
+
+// abortFlagGuarding: the call runs only on the edge where a captured bool is false (the operation did not complete).
+func abortFlagGuarding(call ssa.CallInstruction) ssa.Value {
+	b := call.Block()
+	for _, blk := range b.Parent().Blocks {
+		if len(blk.Instrs) == 0 {
+			continue
+		}
+		iff, ok := blk.Instrs[len(blk.Instrs)-1].(*ssa.If)
+		if !ok {
+			continue
+		}
+		cond, want := iff.Cond, true
+		for {
+			if u, ok := cond.(*ssa.UnOp); ok && u.Op == token.NOT {
+				cond, want = u.X, !want
+				continue
+			}
+			break
+		}
+		ld, ok := cond.(*ssa.UnOp)
+		if !ok || ld.Op != token.MUL {
+			continue
+		}
+		fv, ok := ld.X.(*ssa.FreeVar)
+		if !ok || !isBoolType(fv.Type().(*types.Pointer).Elem()) {
+			continue
+		}
+		succ := 1 // edge on which the flag is false
+		if !want {
+			succ = 0
+		}
+		if edgeDominates(Edge{blk, succ}, b) {
+			return freeVarBinding(fv)
+		}
+	}
+	return nil
+}
+
+// certainlyNonNilErr: classified non-nil, or a package-level error variable (errors.New sentinel).
+func certainlyNonNilErr(v ssa.Value, at ssa.Instruction) bool {
+	if classifyErr(v, at, nil, 0) == errNonNil {
+		return true
+	}
+	if ld, ok := v.(*ssa.UnOp); ok && ld.Op == token.MUL {
+		if g, ok := ld.X.(*ssa.Global); ok && isErrorType(ld.Type()) && g.Pkg != nil {
+			return true
+		}
+	}
+	return false
+}
+
+// cellHoldsParam: cell is an Alloc whose only store is the parameter (a parameter captured by a closure).
+func cellHoldsParam(cell ssa.Value, prm *ssa.Parameter) bool {
+	al, ok := cell.(*ssa.Alloc)
+	if !ok {
+		return false
+	}
+	for _, rf := range *al.Referrers() {
+		if st, ok := rf.(*ssa.Store); ok && st.Addr == ssa.Value(al) {
+			return st.Val == ssa.Value(prm)
+		}
+	}
 	return false
 }
 
@@ -1268,6 +1456,7 @@ func runC01(c *Ctx) {
 	pc.runPair(c01Kinds)
 	runFSWMC(c, "C01.R3", nil)
 	checkAccumulatorsHandedBack(c)
+	checkFinalizeHelpers(c)
 }
 
 // c01Accumulators: functions that create several files in a loop and hand them to the caller as a slice — also on failure, so
